@@ -33,7 +33,8 @@ RUN_MODULE = 'Run.C12'
 REPO_BINS = ['sccache']
 THEOREMS = ['C12_identity_is_current', 'C12_no_cross_binary_results', 'C12_swap_back',
             'C12_distinct_binaries_never_share', 'C12_same_mtime_refuted', 'C12_shared_entry_refuted',
-            'C12_window_refuted', 'C12_asfound_is_fixed_without_windows']
+            'C12_window_refuted', 'C12_asfound_is_fixed_without_windows',
+            'C12_proxy_follows_selection', 'C12_proxy_memo_refuted', 'C12_rust_identity_sees_through_links']
 ASSUMPTIONS = [
     'premise of the property, explicit as the boolean `wf_history` (= `mtime_tracks_content` on the recorded requests): two '
     'requests naming the same compiler path that see the same mtime there (through links, as stat does) see the same bytes '
@@ -51,10 +52,16 @@ ASSUMPTIONS = [
     'under (after the window)',
     'links only in the final path component (directories are plain); the dist toolchain archive (dist_info is always None '
     'without a dist client), result-cache eviction and concurrent requests are left out',
-    'the rustup-proxy branch of compiler_info (compiler_proxies; only rustc registers proxies, and ~/.cargo/bin/rustc IS a '
-    'rustup proxy in this sandbox) is NOT in the Coq model: on the C/C++ path the proxy map stays empty.  It is exercised '
-    'by the fixed e2e scenario `e2e-rustup` only.  For rustc the identity is (rustc -vV text, digests of the sysroot\'s '
-    'shared libraries), not the bytes of the rustc executable: wrappers around one toolchain share results by design',
+    'rustc: Model/RustToolchain.v models (1) the proxy world — a rustup proxy path leads to the toolchain rustup selects NOW; the '
+    'registered proxy is asked for every request; entries keyed (proxy, resolved rustc) revalidated by the resolved rustc\'s mtime; '
+    'requests straight through a toolchain\'s rustc — and (2) the identity of a rustc = digests of what <sysroot>/lib/*.so loads, '
+    'through links.  Premise there: at one toolchain\'s rustc the same mtime means the same build; ident / H collision-free (global '
+    'hypotheses).  Left out: a selection pointing to a toolchain that is not installed (the code falls back to the entry of the '
+    'very first detection), changes of the proxy FILE (e2e-rustup scenario only), rustc -vV text as part of the identity, the '
+    'detection window on the rustc path.  Tie: leg rustworld (real server, minimal rustup + proxy, wrappers around the real rustc, '
+    'sysroot libraries as files or as links) + translator checks on RustupProxy / resolve_proxied_executable / Rust::new',
+    'an in-place rewrite of a regular file (`rewrite`, same inode) is for the model the same as replacing it (`swap`); the '
+    'generators rewrite regular files only',
 ]
 TRUSTED = [
     'harness/src/bin/c12.rs and the e2e driver in lib/props/c12.py: the shell compilers / gcc wrappers, their invocation log, '
@@ -85,7 +92,7 @@ class Fs:
 
 def apply_op(fs, op):
     t = op[0]
-    if t == b'swap':
+    if t in (b'swap', b'rewrite'):
         fs.n[(op[1] % 8, op[2] % 3)] = ('f', op[3], op[4])
     elif t == b'retarget':
         fs.n[(op[1] % 8, op[2] % 3)] = ('l', (op[3] % 8, op[4] % 3))
@@ -146,6 +153,8 @@ def gen_history(rng, maxlen, adversarial, only_live=False, only_good=False, wind
             pool = GOOD[:3] if rng.chance(1, 2) else (GOOD if only_good else GOOD + [100, 101])
             b = rng.choice(pool)
             op = [b'swap', d, nm, b, mt(b)]
+            if fs.n.get((d, nm), ('', 0))[0] == 'f' and rng.chance(1, 3):
+                op[0] = b'rewrite'      # the same change, made in place (same inode; sizes are equal for ids < 10)
         elif kind == 'retarget':
             tgt = rng.choice(live) if (only_live or not rng.chance(1, 10)) else somepath()
             if rng.chance(3, 5):
@@ -172,7 +181,8 @@ def gen_history(rng, maxlen, adversarial, only_live=False, only_good=False, wind
                     if k2 in ('swap_here', 'swap_target'):
                         q = (d, nm) if k2 == 'swap_here' else tgt
                         b = rng.choice(GOOD[:3] if (only_good or rng.chance(5, 6)) else [100])
-                        env.append([b'swap', q[0], q[1], b, mt(b)])
+                        env.append([b'rewrite' if (fs.n.get(q, ('', 0))[0] == 'f' and rng.chance(1, 3)) else b'swap',
+                                    q[0], q[1], b, mt(b)])
                     elif k2 == 'touch':
                         fresh[0] += 1
                         env.append([b'touch', d, nm, rng.range(1, 6) if adversarial else fresh[0]])
@@ -220,11 +230,13 @@ def gen_scenarios():
     return out
 
 
-def gen_recycled(rng, p=None, via_link=None):
+def gen_recycled(rng, p=None, via_link=None, good_only=False):
     """three binaries at one path, A and C sharing an exact mtime, B another one; a walk A/C -> B -> A/C -> B ... so
     that EVERY swap changes both contents and mtime, each binary being requested while it is there."""
     p = p or (rng.below(3), rng.below(3))
     a, b, c = rng.shuffle(GOOD)[:3]
+    if not good_only and rng.chance(1, 3):
+        b = rng.choice([100, 101])      # the binary in between is no compiler at all: its requests are refused
     ma = rng.range(1, 20)
     mb = ma + rng.range(1, 9)
     req = p
@@ -237,10 +249,33 @@ def gen_recycled(rng, p=None, via_link=None):
         seq.append(rng.choice([a, c]) if i % 2 == 0 else b)
     if a not in seq or c not in seq:
         seq[0], seq[2] = a, c
-    for x in seq:
-        ops.append([b'swap', p[0], p[1], x, mb if x == b else ma])
+    inplace = rng.chance(1, 2)
+    for i, x in enumerate(seq):
+        ops.append([b'rewrite' if (inplace and i > 0) else b'swap', p[0], p[1], x, mb if x == b else ma])
         for _ in range(rng.range(1, 2)):
             ops.append([b'compile', req[0], req[1], rng.below(2)])
+    return ops
+
+
+def gen_inplace(rng, p=None):
+    """binaries of equal size written IN PLACE over each other (same inode) with mtimes that differ only below the
+    second (the logical mtime counts quarter seconds): a change in the sense of the property that an identity taken
+    from (device, inode, size, whole seconds) does not see."""
+    p = p or (rng.below(3), rng.below(3))
+    sec = 4 * rng.range(2, 30)
+    bins = rng.shuffle(GOOD)[:3]
+    quarters = rng.shuffle([0, 1, 2, 3])
+    ops = [[b'swap', p[0], p[1], bins[0], sec + quarters[0]], [b'compile', p[0], p[1], 0]]
+    own = {bins[0]: quarters[0]}
+    last = bins[0]
+    for i in range(rng.range(2, 4)):
+        x = rng.choice([y for y in bins if y != last])
+        if x not in own:
+            own[x] = quarters[len(own)]
+        ops.append([b'rewrite', p[0], p[1], x, sec + own[x]])
+        for _ in range(rng.range(1, 2)):
+            ops.append([b'compile', p[0], p[1], rng.below(2)])
+        last = x
     return ops
 
 
@@ -423,6 +458,8 @@ def neighbours(case):
             yield gen_recycled(rng, p, via_link=(k % 3 == 2))
         for k in range(8):
             yield gen_window(rng, p)
+        for k in range(6):
+            yield gen_inplace(rng, p)
     for i in range(1, len(case)):
         yield case[i:] + case[:i]
     for i, op in enumerate(case):
@@ -444,6 +481,8 @@ def gen_inproc(rng, tier):
     for i in range(n // 8):
         out.append(gen_recycled(rng))
         out.append(gen_window(rng))
+        if i % 2 == 0:
+            out.append(gen_inplace(rng))
     return out
 
 
@@ -604,6 +643,19 @@ def e2e_history(binp, case, idx):
                 ns = (BASE + m // 4) * 10**9 + (m % 4) * 250000000
                 os.utime(tmp, ns=(ns, ns))
                 os.rename(tmp, p)          # mv: the path is a new regular file, mtime preserved
+            elif t == b'rewrite':
+                p = P(op[1], op[2])
+                if os.path.islink(p) or not os.path.isfile(p):
+                    try:
+                        os.unlink(p)
+                    except OSError:
+                        pass
+                # `cat new > path`: in place, the file keeps its inode
+                subprocess.run(['/bin/sh', '-c', 'cat > "$0" && chmod 755 "$0"', p],
+                               input=(WRAPPER % {'id': op[3], 'log': log, 'root': root}).encode(), check=True)
+                m = op[4]
+                ns = (BASE + m // 4) * 10**9 + (m % 4) * 250000000
+                os.utime(p, ns=(ns, ns))
             elif t == b'retarget':
                 l = P(op[1], op[2])
                 try:
@@ -845,14 +897,277 @@ def e2e_rustup(binp):
     return obs, problems
 
 
+# ------------------------------------------------------------------ e2e: the rustc world (proxy selection, sysroot layouts)
+
+RW_TOOLCHAIN = r"""#!/bin/sh
+# rustc build %(b)d
+case "$1" in
+  --print=sysroot) echo "%(sys)s"; exit 0 ;;
+  +*) echo "error: not a rustup proxy" >&2; exit 1 ;;
+esac
+outdir=; prev=
+for a in "$@"; do
+  [ "$prev" = "--out-dir" ] && outdir=$a
+  prev=$a
+done
+"%(real)s" "$@" || exit $?
+if [ -n "$outdir" ]; then
+  for f in "$outdir"/*.rlib; do [ -f "$f" ] && printf '\nWRAPPER_ID=%(b)d\n' >> "$f"; done
+fi
+exit 0
+"""
+RW_RUSTUP = r"""#!/bin/sh
+case "$1" in
+  --version) echo "rustup 1.27.1 (verif)"; exit 0 ;;
+  which) [ "$2" = rustc ] && { echo "%(root)s/toolchains/$(cat "%(root)s/rustup/default")/bin/rustc"; exit 0; } ;;
+esac
+exit 1
+"""
+RW_PROXY = r"""#!/bin/sh
+case "$1" in +*) shift ;; esac
+[ $# = 0 ] && { echo "Usage: rustc [OPTIONS] INPUT"; exit 0; }
+exec "%(root)s/toolchains/$(cat "%(root)s/rustup/default")/bin/rustc" "$@"
+"""
+
+
+def real_rustc():
+    for cand in (shutil.which('rustup'),):
+        if cand:
+            try:
+                out = subprocess.run([cand, 'which', 'rustc'], stdout=subprocess.PIPE, stderr=subprocess.PIPE, timeout=60).stdout.decode().strip()
+                if out and os.path.exists(out):
+                    return out
+            except Exception:
+                pass
+    r = shutil.which('rustc')
+    return os.path.realpath(r) if r else None
+
+
+def gen_rustworld(rng):
+    """default switches (rustup default / override), reinstalls of a toolchain with another build, requests through
+    the proxy and straight through a toolchain's rustc.  Every build travels with its own mtime (premise)."""
+    ops = []
+    assign = rng.shuffle([1, 2, 3, 4])
+    where = {}
+    for t in (1, 2, 3):
+        where[t] = assign[t - 1]
+        ops.append([b'install', t, where[t], 20 + 3 * where[t]])
+    ops.append([b'default', rng.range(1, 3)])
+    for _ in range(rng.range(6, 10)):
+        k = rng.weighted([('default', 3), ('install', 2), ('req', 5), ('reqd', 2)])
+        if k == 'default':
+            ops.append([b'default', rng.range(1, 3)])
+        elif k == 'install':
+            t = rng.range(1, 3)
+            b = rng.choice([x for x in (1, 2, 3, 4) if x != where[t]])
+            where[t] = b
+            ops.append([b'install', t, b, 20 + 3 * b])
+        elif k == 'req':
+            ops.append([b'req', rng.below(2)])
+        else:
+            ops.append([b'reqd', rng.range(1, 3), rng.below(2)])
+    return ops
+
+
+RUSTWORLD_SCENARIOS = [
+    # rustup default A: one, one; default B: one, two; default A: two
+    [[b'install', 1, 1, 23], [b'install', 2, 2, 26], [b'default', 1], [b'req', 0], [b'req', 0], [b'default', 2],
+     [b'req', 0], [b'req', 1], [b'default', 1], [b'req', 1]],
+    # the rustc at a plain path is swapped between two builds and back
+    [[b'install', 1, 1, 23], [b'reqd', 1, 0], [b'install', 1, 2, 26], [b'reqd', 1, 0], [b'reqd', 1, 1],
+     [b'install', 1, 1, 23], [b'reqd', 1, 1], [b'reqd', 1, 0]],
+]
+
+
+def e2e_rustworld(binp, real, case, idx, links):
+    """-> (events [res, producer, cur], problems).  links: the sysroots' lib/*.so are symbolic links into a store."""
+    root = '/dev/shm/c12rw-%d-%d' % (os.getpid(), idx)
+    shutil.rmtree(root, ignore_errors=True)
+    for d in ('cargo/bin', 'rustup', 'w', 'store', 'sys'):
+        os.makedirs(os.path.join(root, d))
+    cwd = os.path.join(root, 'w')
+    cache = os.path.join(root, 'cache')
+    env = {'PATH': '/usr/bin:/bin', 'HOME': root, 'SCCACHE_DIR': cache, 'SCCACHE_IDLE_TIMEOUT': '120', 'TMPDIR': root}
+    for n in (0, 1):
+        open(os.path.join(cwd, 'c%d.rs' % n), 'w').write('pub fn f%d() -> u32 { %d }\n' % (n, n))
+
+    def script(path, text, ns=None):
+        subprocess.run(['/bin/sh', '-c', 'cat > "$0.tmp" && chmod 755 "$0.tmp"', path], input=text.encode(), check=True)
+        if ns is not None:
+            os.utime(path + '.tmp', ns=(ns, ns))
+        os.rename(path + '.tmp', path)
+
+    old = (BASE - 86400) * 10**9
+    script(os.path.join(root, 'cargo/bin/rustup'), RW_RUSTUP % {'root': root}, old)
+    script(os.path.join(root, 'cargo/bin/rustc'), RW_PROXY % {'root': root}, old)
+    proxy = os.path.join(root, 'cargo/bin/rustc')
+
+    def sysroot(b):
+        sd = os.path.join(root, 'sys', str(b))
+        if not os.path.isdir(sd):
+            os.makedirs(os.path.join(sd, 'lib'))
+            lib = os.path.join(sd, 'lib', 'librustc_driver-0123456789abcdef.so')
+            if links:
+                os.makedirs(os.path.join(root, 'store', str(b)))
+                open(os.path.join(root, 'store', str(b), 'librustc_driver.1'), 'w').write('compiler libraries of build %d\n' % b)
+                os.symlink(os.path.join(root, 'store', str(b), 'librustc_driver.1'), lib)
+            else:
+                open(lib, 'w').write('compiler libraries of build %d\n' % b)
+        return sd
+
+    tc = {}
+    dflt = [None]
+
+    def sccache(*a):
+        return subprocess.run([binp] + list(a), env=env, cwd=cwd, stdout=subprocess.PIPE, stderr=subprocess.PIPE, timeout=300)
+
+    def counters():
+        st = json.loads(sccache('--show-stats', '--stats-format=json').stdout.decode())['stats']
+        return sum(st['cache_hits']['counts'].values()), sum(st['cache_misses']['counts'].values())
+
+    events, problems = [], []
+    try:
+        for attempt in range(5):
+            env['SCCACHE_SERVER_PORT'] = str(free_port())
+            r = sccache('--start-server')
+            if r.returncode == 0:
+                break
+        else:
+            return None, ['server did not start: ' + r.stderr.decode()[-300:]]
+        prev = counters()
+        for op in case:
+            t = op[0]
+            if t == b'install':
+                d = os.path.join(root, 'toolchains', str(op[1]), 'bin')
+                os.makedirs(d, exist_ok=True)
+                m = op[3]
+                script(os.path.join(d, 'rustc'), RW_TOOLCHAIN % {'b': op[2], 'sys': sysroot(op[2]), 'real': real},
+                       (BASE + m // 4) * 10**9 + (m % 4) * 250000000)
+                tc[op[1]] = (op[2], m)
+            elif t == b'default':
+                open(os.path.join(root, 'rustup/default'), 'w').write('%d\n' % op[1])
+                dflt[0] = op[1]
+            elif t in (b'req', b'reqd'):
+                path = proxy if t == b'req' else os.path.join(root, 'toolchains', str(op[1]), 'bin', 'rustc')
+                sel = dflt[0] if t == b'req' else op[1]
+                src = op[1] if t == b'req' else op[2]
+                cur = list(tc[sel]) if sel in tc else []
+                for d in ('out', 'dout'):
+                    shutil.rmtree(os.path.join(cwd, d), ignore_errors=True)
+                    os.makedirs(os.path.join(cwd, d))
+                args = ['--crate-name', 'c%d' % src, '--edition=2021', 'c%d.rs' % src, '--crate-type', 'lib', '--emit=dep-info,link',
+                        '-C', 'opt-level=0']
+                r = sccache(path, *args, '--out-dir', 'out')
+                # the path run DIRECTLY: which build does it lead to now
+                subprocess.run([path] + args + ['--out-dir', 'dout'], env=env, cwd=cwd, stdout=subprocess.PIPE, stderr=subprocess.PIPE, timeout=300)
+                direct = stamp_of(os.path.join(cwd, 'dout', 'libc%d.rlib' % src))
+                got = stamp_of(os.path.join(cwd, 'out', 'libc%d.rlib' % src))
+                now = counters()
+                dh, dm = now[0] - prev[0], now[1] - prev[1]
+                prev = now
+                res = b'fail' if r.returncode != 0 else b'hit' if (dh, dm) == (1, 0) else b'miss' if (dh, dm) == (0, 1) else ('stats_%d_%d' % (dh, dm)).encode()
+                if cur and direct != cur[0]:
+                    problems.append('request %d: driver problem — the path run directly gave build %d, expected %d' % (len(events), direct, cur[0]))
+                events.append([res, got if res in (b'hit', b'miss') else 0, cur])
+    finally:
+        try:
+            sccache('--stop-server')
+        except Exception:
+            pass
+        kill_servers(cache)
+        shutil.rmtree(root, ignore_errors=True)
+    return events, problems
+
+
+def monitor_rustworld(case, events):
+    """the property on the real server's answers: whatever is handed back was made by the build the requested path
+    leads to now; a build that is back gets its earlier result; nothing is shared between builds."""
+    vs = []
+    served = set()
+    reqs = [op for op in case if op[0] in (b'req', b'reqd')]
+    for i, (op, ev) in enumerate(zip(reqs, events)):
+        res, prod, cur = ev[0], ev[1], ev[2]
+        src = op[1] if op[0] == b'req' else op[2]
+        where = 'request %d (%s, crate %d)' % (i, 'through the rustup proxy' if op[0] == b'req' else 'toolchain %d' % op[1], src)
+        if not cur:
+            if res in (b'hit', b'miss'):
+                vs.append('%s: no toolchain selected, yet a library was handed back' % where)
+            continue
+        b = cur[0]
+        if res in (b'hit', b'miss'):
+            if prod != b:
+                vs.append('%s: the path leads to build %d but the library handed back was made by build %d (%s)' % (where, b, prod, res.decode()))
+            if res == b'miss' and (b, src) in served:
+                vs.append('%s: build %d is selected again but its earlier result was not reused' % (where, b))
+            if res == b'hit' and (b, src) not in served:
+                vs.append('%s: cache hit for build %d which never compiled this crate in this history' % (where, b))
+            served.add((b, src))
+        else:
+            vs.append('%s: build %d is in place but the request ended in %s' % (where, b, res.decode()))
+    return vs
+
+
+def run_rustworld(rep, binp):
+    real = real_rustc()
+    if not real:
+        rep.notes.append('rustworld leg not run: no rustc')
+        return
+    rng = Rng(rep.seed).fork('C12:rustworld')
+    n = 40 if rep.tier == 'thorough' else 6
+    cases = [c for c in RUSTWORLD_SCENARIOS] + pipeline.corpus_cases(ID, 'rustworld') + [gen_rustworld(rng) for _ in range(n)]
+    layouts = [i % 2 == 1 for i in range(len(cases))]
+    layouts[0], layouts[1] = False, True
+    cases = cases[:2] + [cases[0], cases[1]] + cases[2:]
+    layouts = layouts[:2] + [True, False] + layouts[2:]
+    t0 = time.time()
+    mout = pipeline.run_sharded([os.path.join(pipeline.BUILD, 'modelrun-' + ID), 'rustworld'], [sx.dumps(c) for c in cases], 2)
+    with ThreadPoolExecutor(max_workers=8) as ex:
+        results = list(ex.map(lambda x: e2e_rustworld(binp, real, x[1], x[0], layouts[x[0]]), enumerate(cases)))
+    dis = nviol = nreq = 0
+    for i, (case, m, (events, problems)) in enumerate(zip(cases, mout, results)):
+        rep.evaluations += 1
+        if events is None:
+            rep.oblige('rustworld:server-start', False, '; '.join(problems))
+            continue
+        nreq += len(events)
+        rep.count('rustworld.layout=%s' % ('links' if layouts[i] else 'files'))
+        for op in case:
+            rep.count('rustworld.op=' + op[0].decode())
+        for ev in events:
+            rep.count('rustworld.res=' + ev[0].decode())
+        if len({ev[2][0] for ev in events if ev[2]}) >= 2:
+            rep.distinct.add('rustworld:%d:' % layouts[i] + sx.dumps(case))
+        tagged = [b'links' if layouts[i] else b'files', case]
+        for v in monitor_rustworld(case, events) + problems:
+            nviol += 1
+            if nviol <= 3:
+                rep.violation('property', 'rustworld', tagged, v)
+        model = [e[:3] for e in pipeline.parse_out(m)]
+        if model != events:
+            dis += 1
+            if dis <= 2 and not nviol:
+                rep.violation('correspondence', 'rustworld', tagged,
+                              'model and real server disagree; model=%s impl=%s' % (sx.dumps(model)[:1500], sx.dumps(events)[:1500]))
+    rep.traces += len(cases)
+    rep.legs['rustworld'] = dict(cases=len(cases), requests=nreq, disagreements=dis, violations=nviol, wall_s=round(time.time() - t0, 1))
+    rep.rule.append('rustworld: real sccache server, a minimal rustup + rustc proxy whose selection is a file, toolchains = wrappers '
+                    'around the real rustc with their own sysroot (lib/*.so regular files in half of the histories, symbolic links '
+                    'into a store in the other half); histories of rustup-default switches, reinstalls of a toolchain with another '
+                    'build, requests through the proxy and straight through a toolchain; per request: library stamp == build the '
+                    'path leads to (checked by running the path directly), stats delta == model hit/miss')
+    rep.oblige('correspondence:rustworld', dis == 0, '%d of %d histories disagree' % (dis, len(cases)) if dis else '%d histories, %d requests agree' % (len(cases), nreq))
+    pipeline.log('leg rustworld: %d histories, %d requests, %d disagreements, %d violations, %.1fs' % (len(cases), nreq, dis, nviol, time.time() - t0))
+
+
 def gen_e2e(rng, tier):
     n = 400 if tier == 'thorough' else 60
     out = [c for c in gen_scenarios()[:9]]
     for i in range(n):
         out.append(gen_history(rng, 16, adversarial=False, only_live=True, only_good=True))
     for i in range(max(4, n // 6)):
-        out.append(gen_recycled(rng))
+        out.append(gen_recycled(rng, good_only=True))
         out.append(gen_window(rng))
+        out.append(gen_inplace(rng))
     # the client refuses a path that does not exist: keep only requests on paths that resolve
     clean = []
     for case in out:
@@ -927,6 +1242,7 @@ def extra(rep, known):
         rep.oblige('e2e:rustup-proxy-scenario', not problems, '; '.join(problems)[:1500] if problems else
                    '%d steps: every library equals the direct run, hit exactly when the same compiler built the crate before' % len(obs))
         pipeline.log('leg e2e-rustup: %s, %d problems, %.1fs' % (' '.join('%s/%s=%s' % (o[0], o[1], o[2]) for o in obs), len(problems), time.time() - t1))
+    run_rustworld(rep, binp)
     rep.oblige('correspondence:e2e', dis == 0, '%d of %d histories disagree' % (dis, len(cases)) if dis else '%d histories, %d requests agree' % (len(cases), nreq))
     pipeline.log('leg e2e: %d histories, %d requests, %d disagreements, %d violations, %.1fs' % (len(cases), nreq, dis, nviol, time.time() - t0))
 
@@ -935,6 +1251,21 @@ def check(tier, seed, replay=None):
     """standard pipeline; a replay file of the rustup scenario (not an Sx history) is re-run directly."""
     if replay:
         data = json.load(open(replay))
+        if data.get('leg') == 'rustworld':
+            ok, out = pipeline.build_repo_bins(REPO_BINS)
+            if not ok:
+                print(out[-2000:])
+                return 2
+            tagged = sx.loads(data['case'])
+            events, problems = e2e_rustworld(pipeline.repo_bin('sccache'), real_rustc(), tagged[1], 0, tagged[0] == b'links')
+            vs = monitor_rustworld(tagged[1], events or []) + problems
+            print('case:   ', data['case'])
+            print('impl:   ', sx.dumps(events or []))
+            print('monitor:', vs or 'no property violation')
+            if vs:
+                print('VIOLATION property=%s replay=%s' % (ID, replay))
+                return 1
+            return 0
         if data.get('leg') == 'e2e-rustup':
             ok, out = pipeline.build_repo_bins(REPO_BINS)
             if not ok:
